@@ -295,15 +295,15 @@ loop 1 {
         // C08: one fragment is read per iteration, whatever its number
         chunk_packets@.len() == verif_it1.index@,
 }
-after "idiom_sort_by_number(&mut chunk_packets);" {
-    // C08: every fragment announced by the first datagram has been read (no early exit on a "last" fragment) ...
+before "let mut first_payload = Some(std::mem::take(&mut main_packet.payload));" {
+    // PROPERTY ASSERTIONS (C08; plain statements): every fragment announced by the first datagram has been read (no early exit
+    // on a "last" fragment), and from here on the arrival order is gone: the chunks are ordered by fragment number
     assert(main_packet.total >= 1 ==> chunk_packets@.len() == main_packet.total - 1);
-    // ... and from here on the arrival order is gone: `cs` is ordered by fragment number
+    assert(sorted_by_number(chunk_packets@));
     let ghost cs = chunk_packets@;
     let ghost first = Frag { number: main_packet.number, payload: main_packet.payload@ };
     let ghost mut placed: Seq<Frag> = Seq::empty();
     let ghost mut k: int = -1;
-    proof { assert(sorted_by_number(cs)); }
 }
 loop 2 {
     invariant
@@ -350,7 +350,9 @@ after "idiom_extend_vec(&mut main_packet.payload, chunk_packet.payload);" {
         }
     }
 }
-after `idiom_extend_vec(&mut main_packet.payload, first_payload.take().unwrap_or_default());` #2 {
+before "let payload = main_packet.get_payload()?;" {
+    // ghost bookkeeping: if no chunk with a higher number was met, the first-arrived fragment belongs at the end
+    let ghost before_tail = placed;
     proof {
         assert(cs.subrange(0, cs.len() as int) =~= cs);
         if k < 0 {
@@ -360,15 +362,17 @@ after `idiom_extend_vec(&mut main_packet.payload, first_payload.take().unwrap_or
             assert(cs.subrange(k, cs.len() as int) =~= Seq::<SplitPacket>::empty());
             assert(frags_of(cs.subrange(k, cs.len() as int)) =~= Seq::<Frag>::empty());
         }
-        // C08: the assembled payload is the concatenation, in ascending fragment number, of ALL fragments: the chunks sorted by
-        // number with the first-arrived fragment at its place.  It depends on the set of fragments only, not on the arrival order.
-        assert(main_packet.payload@ == join_frags(placed));
-        assert(placed == frags_of(cs.subrange(0, k)).push(first) + frags_of(cs.subrange(k, cs.len() as int)));
-        assert(forall|j: int| 0 <= j < k ==> (#[trigger] cs[j]).number <= first.number);
         assert(forall|j: int| k <= j < cs.len() ==> (#[trigger] cs[j]).number > first.number) by {
             assert(forall|j: int| k <= j < cs.len() ==> cs[k].number <= (#[trigger] cs[j]).number);
         }
     }
+    // PROPERTY ASSERTIONS (C08; plain statements): the assembled payload is the concatenation, in ascending fragment number, of
+    // ALL fragments: the chunks sorted by number with the first-arrived fragment at its place.  It depends on the set of
+    // fragments only, not on the arrival order.
+    assert(main_packet.payload@ == join_frags(placed));
+    assert(placed == frags_of(cs.subrange(0, k)).push(first) + frags_of(cs.subrange(k, cs.len() as int)));
+    assert(forall|j: int| 0 <= j < k ==> (#[trigger] cs[j]).number <= first.number);
+    assert(forall|j: int| k <= j < cs.len() ==> (#[trigger] cs[j]).number > first.number);
 }
 @*/
 
